@@ -18,7 +18,7 @@ ALPHABET = [
     "begin_function 1 _ 0 3", "end_function", "function_parameter 2", "begin_block _", "begin_block_no_label _",
     "nop", "insert_nop begin", "ret", "insert_kill fb0", "capability 1", "variable 2 _ 7 _", "type_void",
     "select_function _", "select_function 0", "select_function 1", "select_block _", "select_block 0", "select_block 1",
-    "pop_instruction", "line 1 2 3", "undef 2 _",
+    "pop_instruction", "line 1 2 3", "undef 2 _", "find_return_block_indices",
 ]
 
 
@@ -32,6 +32,41 @@ def histories(bg, rng, tier):
         n = rng.randrange(4, 40)
         w = ALPHABET if rng.random() < 0.5 else ALPHABET[:12] + ["begin_function 1 _ 0 3", "begin_block _", "ret", "end_function"] * 2
         yield [rng.choice(w) for _ in range(n)]
+    # the read-only / derived methods: find_return_block_indices in every structural state,
+    # select_function_by_name with present / absent / non-function names
+    nm = lambda t: "S" + t.encode().hex()
+    for _ in range(3000 if tier == "thorough" else 400):
+        h = []
+        nfn = rng.randrange(1, 4)
+        ids = []
+        nxt = 1
+        for f in range(nfn):
+            h.append("begin_function 1 _ 0 3")
+            ids.append(nxt)
+            nxt += 1
+            for b in range(rng.randrange(0, 4)):
+                h.append("begin_block _")
+                nxt += 1
+                if rng.random() < 0.4:
+                    h.append("find_return_block_indices")
+                for _i in range(rng.randrange(0, 3)):
+                    h.append("nop")
+                if rng.random() < 0.85:
+                    h.append(rng.choice(["ret", "ret_value 9", "kill", "branch 7", "unreachable"]))
+                if rng.random() < 0.4:
+                    h.append("find_return_block_indices")
+            if rng.random() < 0.8:
+                h.append("end_function")
+            h.append("find_return_block_indices")
+        names = ["main", "f", "g", "main"]
+        for k in range(rng.randrange(0, 4)):
+            h.append("name %x %s" % (rng.choice(ids + [77, 2]), nm(rng.choice(names))))
+        for k in range(rng.randrange(1, 4)):
+            h.append("select_function_by_name " + nm(rng.choice(names + ["nope"])))
+            h.append("find_return_block_indices")
+            if rng.random() < 0.5:
+                h.append("select_block %d" % rng.randrange(0, 3))
+        yield h
     # every generated block / terminator method once, with and without a selected block
     for name in bg.emitting_methods():
         sk = bg.sink_of(name)
@@ -48,7 +83,7 @@ def run(rep):
     rep.cov["rule"] = (
         "all call histories up to length 3 (quick) / 4 (thorough) over a 21-call alphabet (begin/end function, "
         "parameter, begin block (no label), block instruction, insertions, terminators, module-level, variable/undef, "
-        "type request, select_function/select_block with valid and invalid indices, pop_instruction, line), random "
+        "type request, select_function/select_block with valid and invalid indices, pop_instruction, line, find_return_block_indices), histories around select_function_by_name / find_return_block_indices, random "
         "histories of length 4-40, and every generated block/terminator method with every insert point; result, "
         "selection and 'module unchanged on error' after every call, each call under catch_unwind; implementation "
         "vs extracted model vs the structure rules; non-trivial = history with at least one successful structural call"
